@@ -381,8 +381,8 @@ class FI:
         if isinstance(c, CV):
             return c
         if isinstance(c, IV) and c.single:
-            return CV('const', (), c.lo != 0)
-        return CV('unk')
+            return CV('const', (), c.lo != 0, c.poison)
+        return CV('unk', (), None, getattr(c, 'poison', None))
 
     # -- refinement: returns list of states (the state may split on disjunctions); states found infeasible are dropped
     def refine(self, st, c, truth):
@@ -450,7 +450,7 @@ class FI:
             v = False if (x.val is False or y.val is False) else (True if (x.val and y.val) else None)
         else:
             v = True if (x.val is True or y.val is True) else (False if (x.val is False and y.val is False) else None)
-        return CV(op, (x, y), v)
+        return CV(op, (x, y), v, x.poison or y.poison)
 
     def assign(self, st, v, nv):
         """new (refined) value of SSA operand v; propagated to the cell it was loaded from and through exact
@@ -471,17 +471,13 @@ class FI:
             elif i.op == 'fptrunc':
                 src = self.val(st, i.ops[0])
                 if isinstance(src, FV):
+                    # narrowing keeps NaN and infinities: their absence in the result is their absence in the source
+                    # (nothing is concluded about the magnitude of the wider source value)
                     r = src.copy()
                     r.nan = r.nan and nv.nan
                     r.pinf = r.pinf and nv.pinf
                     r.ninf = r.ninf and nv.ninf
-                    if not nv.pinf and r.fin and r.hi > DBL_MAX:
-                        r.hi = DBL_MAX      # values that round to DBL_MAX: the narrowed value is what is used from here on
-                    if not nv.ninf and r.fin and r.lo < -DBL_MAX:
-                        r.lo = -DBL_MAX
-                    if nv.fin and r.fin:
-                        r.lo, r.hi = max(r.lo, nv.lo), min(r.hi, nv.hi)
-                    elif not nv.fin:
+                    if not nv.fin and not (src.fin and (src.hi > DBL_MAX or src.lo < -DBL_MAX)):
                         r.lo, r.hi = INF, -INF
                     if not r.empty:
                         self.assign(st, i.ops[0], r)
@@ -655,13 +651,17 @@ class FI:
             self.assign(st, vb, IV(blo, bhi, b.km, b.kv))
         return [st]
 
+    def use(self, v):
+        """value v is used in a way that makes a poison value undefined behaviour"""
+        pz = getattr(v, 'poison', None)
+        if pz is not None:
+            self.oblige('fpcast', pz[0], False, pz[1])
+
     # ------------------------------------------------------------------ instructions
     def int_result(self, i, lo, hi, km=0, kv=0):
         bits = i.bits or 64
         t = IV.top(bits)
         if lo < t.lo or hi > t.hi:
-            if lo >= 0 and hi < (1 << bits):
-                return IV(lo, hi, km, kv)      # fits as an unsigned value
             return t
         return IV(lo, hi, km, kv)
 
@@ -675,9 +675,9 @@ class FI:
                 return self.mk_bool(op, a, b)
             if op == 'xor':
                 if b.op == 'const' and b.val is True:
-                    return CV('not', (a,), None if a.val is None else not a.val)
+                    return CV('not', (a,), None if a.val is None else not a.val, a.poison)
                 if a.op == 'const' and a.val is True:
-                    return CV('not', (b,), None if b.val is None else not b.val)
+                    return CV('not', (b,), None if b.val is None else not b.val, b.poison)
             return CV('unk')
         if isinstance(a, PV) and isinstance(b, PV) and op == 'sub':
             if len(a.alts) == 1 and len(b.alts) == 1 and a.alts[0][0] == b.alts[0][0]:
@@ -744,6 +744,32 @@ class FI:
         key = ('i', i.id)
         env = st.env
         self.steps += 1
+        if op in ('store', 'call', 'invoke', 'getelementptr', 'sitofp', 'uitofp', 'load'):
+            for o in i.ops:
+                if o.k in ('inst', 'arg'):
+                    self.use(st.env.get(o.key()))
+        elif op in ('add', 'sub', 'mul', 'and', 'or', 'xor', 'shl', 'lshr', 'ashr', 'udiv', 'sdiv', 'urem', 'srem', 'icmp',
+                    'zext', 'sext', 'trunc'):
+            pz = None
+            for o in i.ops:
+                if o.k in ('inst', 'arg'):
+                    pz = pz or getattr(st.env.get(o.key()), 'poison', None)
+            if pz is not None:
+                out = self.exec_inst2(i, st)
+                for s in out:
+                    r = s.env.get(key)
+                    if isinstance(r, IV):
+                        r = IV(r.lo, r.hi, r.km, r.kv, r.tag, r.vs, pz)
+                        s.env[key] = r
+                    elif isinstance(r, CV):
+                        s.env[key] = CV(r.op, r.args, r.val, pz)
+                return out
+        return self.exec_inst2(i, st)
+
+    def exec_inst2(self, i, st):
+        op = i.op
+        key = ('i', i.id)
+        env = st.env
         if op == 'alloca':
             o = ('a', i.id)
             self.objsize[o] = i.d.get('alloc_ty', {}).get('size')
@@ -845,8 +871,6 @@ class FI:
                 t = IV.top(i.bits)
                 if t.lo <= a.lo and a.hi <= t.hi:
                     env[key] = IV(a.lo, a.hi, a.km & ((1 << i.bits) - 1), a.kv & ((1 << i.bits) - 1), vs=a.vs)
-                elif 0 <= a.lo and a.hi < (1 << i.bits):
-                    env[key] = IV(a.lo, a.hi)
                 else:
                     env[key] = t
             return [st]
@@ -888,11 +912,16 @@ class FI:
                     bad.append('a value above %d' % t.hi)
                 lo = max(t.lo, math.trunc(max(a.lo, -1e30)))
                 hi = min(t.hi, math.trunc(min(a.hi, 1e30)))
-            ok = not bad
-            self.oblige('fpcast', i, ok, None if ok else
-                        'the operand of this float -> %d-bit integer conversion may be %s (value range %r): the '
-                        'conversion is undefined' % (bits, ' or '.join(bad), a))
-            env[key] = IV(lo, hi) if lo is not None and lo <= hi else t
+            # an out-of-range conversion yields a poison value: undefined only when the value is used (the compiler may have
+            # hoisted the conversion above the test that guards its use)
+            self.oblige('fpcast', i, True)
+            pz = None
+            if bad:
+                pz = (i, 'the operand of this float -> %d-bit integer conversion may be %s (value range %r) and the result is '
+                      'used: the conversion is undefined' % (bits, ' or '.join(bad), a))
+            r = IV(lo, hi) if lo is not None and lo <= hi else IV(t.lo, t.hi)
+            r.poison = pz
+            env[key] = r
             return [st]
         if op == 'select':
             return self.exec_select(i, st)
@@ -916,6 +945,7 @@ class FI:
     def exec_select(self, i, st):
         key = ('i', i.id)
         c = self.cond_of(st, i.ops[0])
+        self.use(c)
         if i.bits == 1:
             a = self.cond_of(st, i.ops[1])
             b = self.cond_of(st, i.ops[2])
@@ -1149,6 +1179,8 @@ class FI:
     def exec_term(self, t, st):
         fn = self.fn
         if t.op == 'ret':
+            if t.ops:
+                self.use(self.val(st, t.ops[0]))
             if not self.silent:
                 self.ret_states.append((st, self.val(st, t.ops[0]) if t.ops else None))
             return []
@@ -1158,6 +1190,7 @@ class FI:
             if 'f' not in t.d:
                 return [(st, fn.bmap[t.d['t']])]
             c = self.cond_of(st, t.ops[0])
+            self.use(c)
             if c.val is not None:
                 return [(st, fn.bmap[t.d['t'] if c.val else t.d['f']])]
             s2 = st.fork()
@@ -1166,6 +1199,7 @@ class FI:
             return out
         if t.op == 'switch':
             v = self.val(st, t.ops[0])
+            self.use(v)
             out = []
             cases = t.d['cases']
             if isinstance(v, IV):
